@@ -63,6 +63,7 @@ program drv_f
   integer :: ios, k, a, b, c, bar, u
   integer(C_INT) :: r
   character(len=:), allocatable :: s
+  character(len=30) :: fixed30
   integer(C_INT), allocatable :: iv(:), wv(:)
   real(C_DOUBLE), allocatable :: dv(:)
 
@@ -261,6 +262,10 @@ contains
 #ifndef SIMC
     case ("str_owned")
        call sim_phase(1); s = str_owned(int(a, C_INT)); call sim_phase(0); call res_str(s); deallocate(s)
+#endif
+#ifndef SIMC
+    case ("str_final")
+       call sim_phase(1); fixed30 = str_final(int(a, C_INT)); call sim_phase(0); call res_str(fixed30)
 #endif
 #ifndef SIMC
     case ("str_lib")
